@@ -973,6 +973,15 @@ func (d *Pegnetd) ApplyTransactionBlock(sqlTx *sql.Tx, eblock *factom.EBlock) er
 		} else if isReplay {
 			continue
 		}
+		// An entry that is already recorded in the history but has not been
+		// executed (it is still in holding, or it was rejected) is a repeat of
+		// an earlier entry. It must not be recorded or considered again.
+		isRecorded, err := d.Pegnet.IsTransactionHistoryRecorded(sqlTx, txBatch.Entry.Hash)
+		if err != nil {
+			return err
+		} else if isRecorded {
+			continue
+		}
 		// At this point, we know that the transaction batch is valid and able to be executed.
 
 		if err = d.Pegnet.InsertTransactionHistoryTxBatch(sqlTx, blockorder, txBatch, eblock.Height); err != nil {
